@@ -1,6 +1,65 @@
-//! Stateful parts of C15 (placeholder until the rigs are wired in).
-use crate::runner::Part;
+//! Stateful parts of C15: hostile input against a live real node, then functional probes.
+use crate::rig::HEv;
+use crate::runner::{Ctx, Outcome, Part};
+use crate::solo::{self, render_hist, run_solo, sample_of, Knobs, Profile};
+use crate::tape::{fnv, Case};
+use serde_json::json;
 
 pub fn c15_parts() -> Vec<Part> {
-    Vec::new()
+    vec![Part {
+        name: "hostile-solo",
+        cfg_len: solo::CFG_LEN,
+        tape_max: 300,
+        quick: 3_000,
+        thorough: 100_000,
+        max_shrink_iters: 200,
+        run: run_hostile_solo,
+    }]
+}
+
+fn run_hostile_solo(case: &Case, _ctx: &Ctx) -> Outcome {
+    let knobs = Knobs { hostile: true, probes: true, max_steps: 14 };
+    let run = run_solo(case, Profile::Mixed, &knobs);
+    let mut out = Outcome::default();
+    let mut sample = sample_of(&run);
+    if let Some(o) = sample.as_object_mut() {
+        o.insert("hostile_inputs".into(), json!(run.hostile.iter().map(|(n, d)| format!("{}{}", n, if *d { " (decoded)" } else { "" })).collect::<Vec<_>>()));
+        o.insert("probes".into(), json!(run.probes.iter().map(|(n, ok, _)| format!("{}={}", n, ok)).collect::<Vec<_>>()));
+    }
+    out.sample = sample;
+    let hist = || json!({"n": run.w.n, "stakes": run.w.stakes, "sut": run.sut, "script": run.steps, "history": render_hist(&run, 300),
+        "panics": run.panics.iter().map(|p| format!("node {} {} {}", p.node, p.location, p.message)).collect::<Vec<_>>()});
+    // any panic in a task of the node (its own code or a dependency called from it)
+    let mut panicked = false;
+    for p in &run.panics {
+        if p.node == run.sut_id {
+            panicked = true;
+            out.violate(&format!("panic@{}", p.location), format!("the node panicked at {}: {}", p.location, p.message), hist());
+        }
+    }
+    if !panicked {
+        for (name, ok, detail) in &run.probes {
+            if !ok {
+                out.violate(&format!("service-down:{}", name), detail.clone(), hist());
+            }
+        }
+    }
+    let mut kinds = String::new();
+    for (name, decoded) in &run.hostile {
+        out.class(&format!("hostile:{}", name.split("-port").next().unwrap_or(name)));
+        if *decoded {
+            kinds.push_str(name);
+        }
+    }
+    let reached = run.hostile.iter().any(|(_, d)| *d);
+    if reached {
+        out.class("hostile-input-decoded");
+    }
+    let junk = run.hist.iter().filter(|e| matches!(e.ev, HEv::InJunk { .. })).count();
+    if junk > 0 {
+        out.class("undecodable-frame-delivered");
+    }
+    out.nontrivial = reached;
+    out.fingerprint = fnv(format!("{:?}{:?}", run.hostile, run.stats).as_bytes());
+    out
 }
